@@ -45,6 +45,8 @@ pub enum JobOut {
     Polled(Option<Pin<Box<RF>>>, PollRes),
     Cancelled,
     Ran(Option<hooks::BoxedTask>, PollRes),
+    /// an environment event (peer close, dial completion, ...) was applied
+    Env,
     Crashed(String),
 }
 
@@ -98,14 +100,19 @@ impl Helpers {
             cv: Condvar::new(),
         });
         let wh = world::handle();
+        // one pool-clock offset for the worker and its helpers, so that a clock step taken on one thread is
+        // seen by an operation that is in progress on another
+        let clock = Arc::new(std::sync::atomic::AtomicU64::new(0));
+        hooks::share_clock_offset(Some(clock.clone()));
         let mut threads = vec![];
         for i in 0..2usize {
             let sh2 = sh.clone();
             let wh2 = wh.clone();
+            let clock2 = clock.clone();
             threads.push(
                 std::thread::Builder::new()
                     .name(format!("conc-helper-{i}"))
-                    .spawn(move || helper_main(i, sh2, wh2))
+                    .spawn(move || helper_main(i, sh2, wh2, clock2))
                     .expect("spawn helper"),
             );
         }
@@ -177,8 +184,9 @@ impl Drop for Helpers {
     }
 }
 
-fn helper_main(i: usize, sh: Arc<Shared>, wh: world::WorldHandle) {
+fn helper_main(i: usize, sh: Arc<Shared>, wh: world::WorldHandle, clock: Arc<std::sync::atomic::AtomicU64>) {
     world::install(wh);
+    hooks::share_clock_offset(Some(clock));
     crate::det::enter_virtual_runtime();
     hooks::capture_spawns(true);
     let me = i as u8 + 1;
@@ -214,7 +222,7 @@ fn helper_main(i: usize, sh: Arc<Shared>, wh: world::WorldHandle) {
             st.state[i] = 4;
             (st.jobs[i].take().unwrap(), st.actors[i], st.clock)
         };
-        hooks::set_clock_state(clock);
+        hooks::set_clock_state((clock.0, Duration::ZERO));
         let _ = hooks::take_spawned();
         world::set_actor(actor);
         let out = match std::panic::catch_unwind(std::panic::AssertUnwindSafe(job)) {
@@ -252,6 +260,11 @@ fn with_helpers<R>(f: impl FnOnce(&Helpers) -> R) -> R {
 /// Is `e` a call into the library (an operation a runtime thread executes)?
 pub fn is_op(e: Ev) -> bool {
     matches!(e, Ev::Issue { .. } | Ev::Poll(_) | Ev::Cancel(_) | Ev::RunBg(_))
+}
+
+/// Is `e` an environment event that can land between two steps of an operation?
+pub fn is_env(e: Ev) -> bool {
+    matches!(e, Ev::DialOk(_) | Ev::DialFail(_) | Ev::HsOk(_) | Ev::HsFail(_) | Ev::Respond(_) | Ev::ConnReady(_) | Ev::ConnClose(_) | Ev::Upgrade(_) | Ev::Tick(_))
 }
 
 fn actor_of(sim: &Sim, e: Ev) -> Actor {
@@ -370,6 +383,27 @@ impl Sim {
                     Some(Actor::Bg(t)),
                 )
             }
+            Ev::Tick(k) => {
+                // the clock moves while an operation is in progress (the shared offset makes the step visible to it)
+                let q = super::sim::tick_quarters(k);
+                self.ticks_used += 1;
+                self.clock_half_t += q;
+                let d = Duration::from_millis(self.cfg.t_ms * q / 4);
+                (
+                    Box::new(move || {
+                        hooks::advance_clock(d);
+                        JobOut::Env
+                    }),
+                    None,
+                )
+            }
+            e if is_env(e) => (
+                Box::new(move || {
+                    super::sim::apply_env(e);
+                    JobOut::Env
+                }),
+                None,
+            ),
             _ => unreachable!("not an operation"),
         }
     }
@@ -413,6 +447,7 @@ impl Sim {
                 }
             }
             (Ev::Cancel(_), JobOut::Cancelled) => {}
+            (_, JobOut::Env) => {}
             (Ev::RunBg(t), JobOut::Ran(task, res)) => {
                 let bg = &mut self.bgs[t as usize];
                 bg.task = task;
@@ -505,6 +540,7 @@ fn sound_under_concurrency(v: &Viol) -> bool {
 pub struct ConcStats {
     pub states: u64,
     pub pairs: u64,
+    pub env_pairs: u64,
     pub interleavings: u64,
     pub max_decision_points: usize,
     pub max_interleavings_of_a_pair: u64,
@@ -537,6 +573,7 @@ pub struct ConcOutcome {
 
 struct StateResult {
     pairs: u64,
+    env_pairs: u64,
     interleavings: u64,
     max_points: usize,
     max_inter: u64,
@@ -613,6 +650,7 @@ fn continue_sequentially(sim: &mut Sim, out: &mut Vec<Viol>, drains: &mut u64, p
 fn explore_state(cfg: &SimConfig, hist: &[Ev], seq_fps: &HashSet<Fp>, props: &[&'static str]) -> StateResult {
     let mut res = StateResult {
         pairs: 0,
+        env_pairs: 0,
         interleavings: 0,
         max_points: 0,
         max_inter: 0,
@@ -631,6 +669,13 @@ fn explore_state(cfg: &SimConfig, hist: &[Ev], seq_fps: &HashSet<Fp>, props: &[&
         let sim = Sim::replay(cfg, hist);
         sim.enabled().into_iter().filter(|e| is_op(*e)).map(|e| (e, actor_of(&sim, e))).collect()
     };
+    let envs: Vec<Ev> = {
+        let sim = Sim::replay(cfg, hist);
+        sim.enabled().into_iter().filter(|e| is_env(*e)).collect()
+    };
+    // operation || operation, then operation || environment event (the event is one atomic step that can land
+    // between any two steps of the operation)
+    let mut pairs: Vec<(Ev, Ev)> = vec![];
     for i in 0..ops.len() {
         for j in (i + 1)..ops.len() {
             let (a, aa) = ops[i];
@@ -640,6 +685,19 @@ fn explore_state(cfg: &SimConfig, hist: &[Ev], seq_fps: &HashSet<Fp>, props: &[&
             }
             if matches!(a, Ev::Issue { .. }) && matches!(b, Ev::Issue { .. }) {
                 continue; // `call` is one critical section: the two orders are the sequential ones
+            }
+            pairs.push((a, b));
+        }
+    }
+    for &(a, _) in &ops {
+        for &x in &envs {
+            pairs.push((a, x));
+        }
+    }
+    {
+        for (a, b) in pairs {
+            if is_env(b) {
+                res.env_pairs += 1;
             }
             res.pairs += 1;
             let mut stack: Vec<Vec<u8>> = vec![vec![]];
@@ -758,6 +816,7 @@ pub fn explore(cfg: &SimConfig, props: &[&'static str], max_wall_s: f64) -> Conc
     for rs in results {
         for r in rs {
             stats.pairs += r.pairs;
+            stats.env_pairs += r.env_pairs;
             stats.interleavings += r.interleavings;
             stats.max_decision_points = stats.max_decision_points.max(r.max_points);
             stats.max_interleavings_of_a_pair = stats.max_interleavings_of_a_pair.max(r.max_inter);
